@@ -9,6 +9,7 @@ guard in /repo changes what these theorems are about.  The back end's retry ladd
 callback failures is covered by the E-REAL fault enumeration only (checks/c18.py).
 -/
 import TbbVerif.Proofs.C18
+import TbbVerif.Proofs.C18.Remap
 
 namespace TbbVerif.C18
 open TbbVerif.Cint
@@ -148,7 +149,37 @@ theorem ledger_run_keeps_disjoint (evs : List Ev) : ∀ (l l' : List Region),
       exact ih l1 l' (ledgerStep_keeps_disjoint l l1 e hd h1) h
     · cases h
 
+/-- **The mremap path of realloc cannot be fooled by wrap-around** (`Backend::remap`, guards generated from
+backend.cpp): for every 64-bit `newSize`, every offset `u < 2^32` of the object inside its region and every region
+granularity `2^k ≤ 2^32`, with `A = binRound (newSize + u)` the true (unbounded) bin rounding of the true sum:
+ * if the sum or its rounding reaches `2^64`, `remap` returns null before touching the mapping (the caller then falls
+   back to allocate-copy-free, which fails cleanly by `llo_wrap_check_sound`);
+ * otherwise the new block has exactly `A ≥ newSize + u` bytes (the object still fits behind its offset) and the
+   region is re-mapped to exactly `alignUp (sizeof(MemRegion) + A + sizeof(LastFreeBlock))`, computed without wrap.
+(Before the repair `14a88ee` the first claim was false: `realloc(p, SIZE_MAX-10)` of a 16 MB object shrank the mapping.) -/
+theorem remap_guard_sound (newSize u k : Nat) (hn : newSize < 2 ^ 64) (hu : u < 2 ^ 32) (hk : k ≤ 32) :
+    (2 ^ 64 ≤ newSize + u ∨ 2 ^ 64 ≤ binRound (newSize + u) → remapReject newSize u (2 ^ k) = true) ∧
+    (binRound (newSize + u) < 2 ^ 64 →
+      remapReject newSize u (2 ^ k) = false ∧
+      remapAlignedSize newSize u (2 ^ k) = binRound (newSize + u) ∧ newSize + u ≤ binRound (newSize + u) ∧
+      remapRequestSize newSize u (2 ^ k) = C17.alignUpN (sizeofMemRegion + binRound (newSize + u) + sizeofLastFreeBlock) (2 ^ k) ∧
+      sizeofMemRegion + binRound (newSize + u) + sizeofLastFreeBlock ≤ remapRequestSize newSize u (2 ^ k) ∧
+      remapRequestSize newSize u (2 ^ k) < 2 ^ 64) := by
+  obtain ⟨d1, d2⟩ := remap_decision newSize u k hn hu hk
+  have r0 := le_binRound (newSize + u)
+  constructor
+  · intro h
+    exact d1 (by omega)
+  · intro h
+    obtain ⟨e1, e2, e3, e4⟩ := d2 h
+    refine ⟨e1, e2, r0, e3, ?_, by rw [e3]; exact e4⟩
+    rw [e3]
+    exact (C17.alignUpN_spec _ _ (Nat.two_pow_pos k)).1
+
 /-! Non-vacuity -/
+example : remapReject (2 ^ 64 - 11) 4352 (2 ^ 12) = true ∧ remapReject (2 ^ 64 - 2 ^ 59) 4352 (2 ^ 12) = true ∧
+    remapReject (32 * 2 ^ 20) 4352 (2 ^ 12) = false ∧ remapAlignedSize (32 * 2 ^ 20) 4352 (2 ^ 12) = 33554432 + 4194304 ∧
+    remapRequestSize (32 * 2 ^ 20) 4352 (2 ^ 12) = 33554432 + 4194304 + 4096 := by decide
 example : callocReject (2 ^ 32) (2 ^ 32) = true ∧ callocReject (2 ^ 32) (2 ^ 31) = false ∧ callocReject 3 6148914691236517206 = true ∧
     callocReject 3 6148914691236517205 = false := by decide
 example : lloOutcome (2 ^ 64 - 1) (2 ^ 6) = .reject ∧ lloOutcome (2 ^ 63) (2 ^ 63) = .reject ∧
